@@ -441,22 +441,34 @@ def Buffer.len (b : Buffer) : Nat := b.offset + b.unread.length
 /-- The read callback: the bytes it has not delivered yet and the sizes it is going to return.
 Each call pops one size `d` and delivers `min d space remaining` bytes (possibly `Some(0)`); when
 the list is exhausted it delivers as much as fits, and `None` (EOF) once nothing is left.  Every
-callback behaviour whose read results concatenate to the stream is of this form. -/
+callback behaviour whose read results concatenate to the stream is of this form (see
+`Cb.ofChunks`).
+
+`strictEof` models `file.rs`, where the callback is `File::read`: a read that returns `Ok(0)` is
+EOF, so once nothing is left a *data* read (`d ≠ 0`) reports `None` at once, while `d = 0` stands for
+`ErrorKind::Interrupted`, which is passed on as `Some(0)`. -/
 structure Cb where
   rem : List UInt8
   ds : List Nat
+  strictEof : Bool := false
   deriving Repr
 
 def Cb.read (c : Cb) (space : Nat) : Option (List UInt8) × Cb :=
   match c.ds with
   | d :: ds' =>
-    let n := min d (min space c.rem.length)
-    (some (c.rem.take n), { rem := c.rem.drop n, ds := ds' })
+    if c.strictEof = true ∧ d ≠ 0 ∧ c.rem.isEmpty = true then (none, c)
+    else
+      let n := min d (min space c.rem.length)
+      (some (c.rem.take n), { c with rem := c.rem.drop n, ds := ds' })
   | [] =>
     if c.rem.isEmpty then (none, c)
     else
       let n := min space c.rem.length
-      (some (c.rem.take n), { rem := c.rem.drop n, ds := [] })
+      (some (c.rem.take n), { c with rem := c.rem.drop n, ds := [] })
+
+/-- A fragmentation given explicitly: the list of read results (empty ones allowed) whose
+concatenation is the stream; after the last one the callback reports EOF. -/
+def Cb.ofChunks (cs : List (List UInt8)) : Cb := { rem := cs.flatten, ds := cs.map List.length }
 
 /-- The first step of `Buffer::read_more` when the vector is full: compaction
 (`drain(0..offset)`) if something has been consumed, else growth (`reserve` of `BUFFER_SIZE`, or
@@ -566,14 +578,37 @@ def runItems (cfg : Cfg) : Nat → Reader → Buffer → Cb → Output
 byte and leads to at most four calls. -/
 def readFuel (n : Nat) : Nat := 4 * n + 8
 
-/-- `Reader::new` (header of `hl` bytes) followed by `read` until the end, the callback returning
-the read sizes `ds`.  `total` is the whole byte stream, header included. -/
-def run (cfg : Cfg) (hl : Nat) (total : List UInt8) (ds : List Nat) : Output :=
-  let c : Cb := { rem := total, ds := ds }
+/-- `Reader::new` (header of `hl` bytes) followed by `read` until the end, for a given callback. -/
+def runCb (cfg : Cfg) (hl : Nat) (c : Cb) : Output :=
   match parseLoop (pHeader hl) (c.measure + 1) Buffer.empty c with
   | .err e => ⟨[], .err e, 0⟩
   | .outOfFuel => ⟨[], .outOfFuel, 0⟩
-  | .ok _ b c => runItems cfg (readFuel total.length) Reader.empty b c
+  | .ok _ b c' => runItems cfg (readFuel c.rem.length) Reader.empty b c'
+
+/-- … the callback returning the read sizes `ds`.  `total` is the whole byte stream, header
+included. -/
+def run (cfg : Cfg) (hl : Nat) (total : List UInt8) (ds : List Nat) : Output :=
+  runCb cfg hl { rem := total, ds := ds }
+
+/-- What `File::read` does when `file.rs` calls it: deliver between 1 and `atMost + 1` bytes
+(`Ok(0)` when nothing is left), or fail with `ErrorKind::Interrupted`.  (Other I/O errors end the
+reading with `Error::Io` and are outside the model.) -/
+inductive OsRead where
+  | data (atMost : Nat)
+  | interrupted
+  deriving Repr, DecidableEq
+
+def OsRead.size : OsRead → Nat
+  | .data n => n + 1
+  | .interrupted => 0
+
+/-- `file.rs`: `CallbackData::read_at_most` over a file that behaves as `evs` says. -/
+def fileCb (total : List UInt8) (evs : List OsRead) : Cb :=
+  { rem := total, ds := evs.map OsRead.size, strictEof := true }
+
+/-- The public `Reader` (`file.rs`): `Reader::new`/`open`, then `read` until `Ok(None)`/`Err`. -/
+def runFile (cfg : Cfg) (hl : Nat) (total : List UInt8) (evs : List OsRead) : Output :=
+  runCb cfg hl (fileCb total evs)
 
 /-! ### Reference semantics without buffer: the stream as a list of records -/
 
